@@ -455,20 +455,12 @@ def ctx_depth_states(dv, nm, stack_vars):
             elif isinstance(r, ast.Assign) and len(r.targets) == 1 and isinstance(r.targets[0], ast.Name):
                 t = r.targets[0].id
                 if t == stack:
-                    if isinstance(r.value, ast.List) and not r.value.elts:
-                        # stack := []: depth(nm) unchanged, len = 0
-                        d, lo, loc_ = TOP if d == TOP else d, 0, dict(loc_)
-                        if (nm, "root") in getattr(dv, "_rootinit", ()):  # never set; kept for clarity
-                            pass
-                    else:
-                        d, lo, loc_ = TOP, 0, {}
+                    # the stack is (re)bound: only the empty display keeps anything known (handled by the caller: lo = 0)
+                    d, lo, loc_ = TOP, 0, {}
                     continue
                 v = depth_of(r.value, (d, lo, loc_))
                 if t == nm:
-                    if v == TOP and isinstance(r.value, ast.Name) and r.value.id in root_names:
-                        # nm := the root message: depth 0 (delta = -len; len is 0 where the parser starts)
-                        v = 0 - 0 if lo == 0 and zero_len.get(node.id, False) else TOP
-                    d = v
+                    d = v  # nm := the root message is given delta 0 by the caller (the stack is the empty display there)
                 else:
                     loc_ = dict(loc_)
                     if v == TOP:
@@ -479,8 +471,6 @@ def ctx_depth_states(dv, nm, stack_vars):
 
     root_names = {n.targets[0].id for n in walk_no_nested(dv.fn) if isinstance(n, ast.Assign) and len(n.targets) == 1 and isinstance(n.targets[0], ast.Name)
                   and isinstance(n.value, ast.Call) and unparse(n.value.func) == "FIXMessage"}
-    # the stack is known to be empty from its `= []` initialisation until the first append / loop
-    zero_len = {}
 
     def join(a, b):
         if a is None:
@@ -492,8 +482,6 @@ def ctx_depth_states(dv, nm, stack_vars):
         return (d, min(lo1, lo2), loc_)
 
     state = {g.entry: (TOP, 0, {})}
-    # initialisation: before the field loop, `stack = []` and `nm = <root>` give delta 0
-    init_seen = {"stack": False}
     work = [g.entry]
     rounds = 0
     while work and rounds < 20000:
@@ -506,10 +494,14 @@ def ctx_depth_states(dv, nm, stack_vars):
         a = node.ast
         if node.kind == "stmt" and isinstance(a, ast.Assign) and len(a.targets) == 1 and isinstance(a.targets[0], ast.Name):
             if a.targets[0].id == stack and isinstance(a.value, ast.List) and not a.value.elts:
-                out = (out[0], 0, out[2])
-                init_seen["stack"] = True
+                # stack := []: nm keeps its depth; the set-up code binds nm to the root next to it, see below
+                out = (st[0], 0, out[2])
             if a.targets[0].id == nm and isinstance(a.value, ast.Name) and a.value.id in root_names:
-                out = (0, out[1], out[2])  # checked below: the stack is empty at this point (delta 0 means depth == len)
+                # nm := root message, depth 0.  delta = depth - len = 0 only if the stack is empty here: it is when nothing was
+                # appended yet on any path to this node (lower bound 0 and no append reaches it)
+                appended = any(isinstance(x.ast, ast.Expr) and isinstance(x.ast.value, ast.Call) and unparse(x.ast.value.func) == f"{stack}.append"
+                               and g.reaches(x.id, nid, exc=False) for x in g.nodes if x.kind == "stmt" and x.ast is not None)
+                out = (0 if not appended else TOP, out[1], out[2])
         for dst, lab in g.succs(nid, exc=True):
             o = out
             if node.kind == "test" and lab in ("true", "false") and stack is not None:
